@@ -62,3 +62,7 @@ add("C04", "translation_validation",
     "Translation validation under environment stubs (cut enumerator with admissible variations, z3-backed SAT solver): for each (circuit, parameter setting, cut family, hash seed) the real minimize_subcircuits is run with validation on and z3 decides equivalence of argument and result over all inputs; interface, size and well-formedness predicates per instance; internal errors are alarmed only when z3 shows no two gates are functionally equivalent.",
     "Trusted: CPython, z3, proxies, the two stubs (documented contracts). Bounded: binary circuits over the 11 supported types, <=4 inputs, <=9 base gates; 4 cut families; hash seeds 0..3 in thorough.",
     "translation validation with z3 equivalence; environment stubs for mockturtle and PySAT", "DESIGN.md §3 C04")
+add("C16", "other",
+    "Bounded symbolic execution: the real BitWriter/BitReader run on z3 bit-vector proxies under a forking executor (every path explored, coverage proven by z3, round trip / oversize / padding decided per path); the dictionary codec under CrossHair with symbolic str/bytes (plus an exhaustive small-alphabet companion); encode/decode of a circuit family incl. out-of-format circuits with z3 equivalence of decoded outputs and gate-multiset comparison.",
+    "Trusted: CPython, z3, CrossHair, proxies. Bounded: <=3 numbers/<=12 symbolic bits; dict <=2 entries, keys <=3 chars; circuits <=5 inputs/<=10 gates. CrossHair 'Not confirmed' is reported inconclusive, not as success.",
+    "bounded symbolic execution (forking executor + CrossHair) and z3 equivalence of decoded circuits", "DESIGN.md §3 C16")
